@@ -73,7 +73,8 @@ TEXTS = ("hello", "", "it's", 'say "hi"', "both ' and \"", "back\\slash",
          "tab\tnewline\nbell\x07", "ünïcödé \U0001F600  ", "\x1b[31mred",
          "a" * 5000, " ")
 NAMES = ("plain.txt", "with space.bin", "ünï.dat", "quote'.txt", "a.b.c",
-         "UPPER", "x" * 100, "dash-name", ".hidden")
+         "UPPER", "x" * 100, "dash-name", ".hidden", "2024\\Q3 report.bin",
+         "back\\up", "semi;colon", "star*", "tab\tname")
 
 
 def record_layout(size):
